@@ -866,6 +866,7 @@ namespace link_layer {
         std::uint8_t                    phy_update_request_receive_;
         bool                            remote_versions_request_pending_;
         bool                            version_indication_received_;
+        bool                            version_indication_send_;
 
         // default configuration parameters
         typedef                         advertising_interval< 100 >         default_advertising_interval;
@@ -900,6 +901,7 @@ namespace link_layer {
         , phy_update_request_pending_( false )
         , remote_versions_request_pending_( false )
         , version_indication_received_( false )
+        , version_indication_send_( false )
     {
         using user_timer_t = typename bluetoe::details::find_by_meta_type<
             details::synchronized_connection_event_callback_meta_type,
@@ -958,6 +960,7 @@ namespace link_layer {
                 pending_event_                          = false;
                 remote_versions_request_pending_        = false;
                 version_indication_received_            = false;
+                version_indication_send_                = false;
                 disconnecting_reason_                   = connection_timeout;
                 procedure_timeout_                      = delta_time();
 
@@ -1320,6 +1323,7 @@ namespace link_layer {
         {
             procedure_timeout_ = delta_time( default_procedure_timeout_us );
             remote_versions_request_pending_ = false;
+            version_indication_send_ = true;
 
             fill< layout_t >( out_buffer, {
                 ll_control_pdu_code, 6, LL_VERSION_IND,
@@ -1602,6 +1606,10 @@ namespace link_layer {
 
                 this->version_indication_received( &body[ 1 ], connection_data_, static_cast< radio_t& >( *this ) );
                 version_indication_received_ = true;
+
+                // if the remote LL_VERSION_IND is the response to our own LL_VERSION_IND, it must not be answered again
+                commit = !version_indication_send_;
+                version_indication_send_ = true;
             }
             else if ( opcode == LL_CHANNEL_MAP_REQ && size == 8 )
             {
